@@ -137,6 +137,28 @@ def run(tier, seed, t0):
             if out.violations:
                 st.add(c, out)
             resweep += 1
+    # the helpers asked about strings that are NOT generated data-field names in between (a caller
+    # walking vars(msg) meets '_payload', 'NSAT', ...): whatever they answer for those, the answers for
+    # the generated names before and after must stay right
+    foreign = ["_payload", "_NHarmCoeffC", "dodgy_xx", "NSAT", "", "_", "DF", "identity", "DF999_zz", "_01"]
+
+    def poke(k):
+        from pyrtcm import att2idx, att2name, datadesc  # pylint: disable=import-outside-toplevel
+
+        for fn in (att2idx, att2name, datadesc):
+            try:
+                fn(foreign[k % len(foreign)])
+            except Exception:  # pylint: disable=broad-except
+                pass
+
+    sub = cases[:: max(1, len(cases) // 1500)]
+    for k, c in enumerate(sub):
+        judge(c)
+        poke(k)
+        out = judge(c)
+        if out.violations:
+            st.add(c, out)
+        resweep += 2
     st.extra["history_resweep_calls"] = resweep
     st.extra["max_index"] = max((max(c["idx"]) for c in cases if c["idx"]), default=0)
     st.extra["two_level_names"] = sum(1 for c in cases if c["idx"] and len(c["idx"]) == 2)
